@@ -55,6 +55,11 @@ def projects(tier):
     # an assertion inside a target, no invariant of the test contract is ever broken
     for fns, d in ((["set", "bad"], 2), (["inc", "bad"], 3), (["inc", "bad"], 2), (["set", "bad", "dec"], 2)):
         out.append({"desc": {"targets": [fns], "invariants": [[0, "s", "le", 255], [0, "t", "le", 5]], "filters": None}, "depth": d})
+    # a stored symbolic word compared with a constant by one function and forwarded into a nested call by another (both orders of the
+    # function list: halmos explores the targets in ABI order)
+    for fns in (["setw", "eq5", "fwd"], ["setw", "fwd", "eq5"], ["setw", "fwd"]):
+        for d in ((2,) if tier == "quick" else (1, 2, 3)):
+            out.append({"desc": {"targets": [fns], "invariants": [[0, "t", "ne", 7], [0, "t", "ne", 5], [0, "s", "ne", 7], [0, "t", "le", 1]], "filters": None}, "depth": d})
     # two targets, filters: every combination over a 2-element pool
     two = [["inc", "own"], ["set", "step"]]
     inv2 = [[0, "s", "ne", 2], [0, "s", "ne", 7], [1, "s", "ne", 5], [1, "s", "ne", 3], [0, "s", "le", 1]]
